@@ -638,4 +638,50 @@ theorem group_sorted (o : List (List Char × List Char)) (h : keysSorted o = tru
   have := group_sorted_aux o [] h (by simp)
   simpa [group] using this
 
+/-! ### `flatten` on a flat string object is the identity (ties `encodeValue`, the function under
+    the `kv.encode` correspondence op, to `encodeKV`, the function of the theorems) -/
+
+/-- the `vrl::Value` object of a flat string object; `enc` is UTF-8 encoding. -/
+def vmapOf (enc : List Char → List Nat) : List (List Char × List Char) → VMap
+  | [] => .nil
+  | kv :: r => .cons (enc kv.1) (.bytes (enc kv.2)) (vmapOf enc r)
+
+theorem mapInsert_append {α : Type} (k : List Char) (v : α) : ∀ (m : List (List Char × α)),
+    (∀ e ∈ m, strLt e.1 k = true) → mapInsert k v m = m ++ [(k, v)] := by
+  intro m
+  induction m with
+  | nil => intro _; rfl
+  | cons e m ih =>
+    intro h
+    have he := h e (by simp)
+    have h1 : k ≠ e.1 := by
+      intro eq; rw [eq, strLt_irrefl] at he; cases he
+    have h2 : strLt k e.1 = false := strLt_asymm _ _ he
+    obtain ⟨ek, ev⟩ := e
+    simp only [mapInsert]
+    simp only at h1 h2
+    simp [h1, h2, ih (fun x hx => h x (by simp [hx]))]
+
+theorem flattenTop_flat (dec : List Nat → Option (List Char)) (enc : List Char → List Nat)
+    (hde : ∀ s, dec (enc s) = some s) : ∀ (o : List (List Char × List Char)) (acc : FMap),
+    keysSorted o = true →
+    (∀ e ∈ acc, ∀ kv ∈ o, strLt e.1 kv.1 = true) →
+    flattenTop dec (vmapOf enc o) acc = some (acc ++ strFields o) := by
+  intro o
+  induction o with
+  | nil => intro acc _ _; simp [vmapOf, flattenTop, strFields]
+  | cons kv r ih =>
+    intro acc hs hacc
+    simp only [keysSorted, Bool.and_eq_true, List.all_eq_true] at hs
+    obtain ⟨hkv, hr⟩ := hs
+    simp only [vmapOf, flattenTop, hde, flattenV, Option.map_some]
+    rw [mapInsert_append kv.1 (Data.str kv.2) acc (fun e he => hacc e he kv (by simp))]
+    rw [ih (acc ++ [(kv.1, Data.str kv.2)]) hr (by
+      intro e he x hx
+      simp only [List.mem_append, List.mem_singleton] at he
+      rcases he with he | rfl
+      · exact hacc e he x (by simp [hx])
+      · exact hkv x hx)]
+    simp [strFields]
+
 end KV
